@@ -23,7 +23,7 @@ add("C04", "exploration",
     "differential runtime monitor: real chain code vs independent reference model (refchain) on generated single-rule violators and valid neighbours; tip + full UTXO dump compared after every delivery",
     "Held on the block histories observed: regtest-like chains (mainnet and testnet rule sets, plain and compressed UTXO records, early and late activation heights) grown block by block; at each height "
     "blocks violating exactly one connection rule (missing/duplicate/double-spent inputs, immature coinbase 99 vs 100, amount ranges, fee underflow, coinbase overclaim, sigop cost 80000 vs 80004, BIP68, failing script, BIP30) and their valid neighbours are offered; a refused block must leave tip and UTXO set unchanged.",
-    "Oracle = /verif/ref/refchain (written from the consensus rules, no shared code). Script validity of generated inputs is ground truth by construction (C01-C03 tie it to the specs). UTXO dump is read through gocoin's own record decoder (tied by C10).",
+    "Oracle = /verif/ref/refchain (written from the consensus rules, no shared code). Script validity of generated inputs is ground truth by construction, cross-checked (all invalid ones, every third valid one) by the independent interpreter /verif/ref/refscript. UTXO dump is read through gocoin's own record decoder (tied by C10).",
     "DESIGN.md §3 C04")
 add("C05", "exploration",
     "differential runtime monitor: real chain code vs independent reference model (refchain) on generated header/structure/commitment violators, valid neighbours, wall-clock-aligned two-hour-rule probe, truncated encodings",
